@@ -129,8 +129,13 @@ Definition lswitch (x : libstate) := mklib (cas x) (ready x) (called x) (org x) 
 (* [sw] = where _cffi_start_python switches _cffi_call_python to the fast path:
      true   inside "if (!called) { ... if (_cffi_initialize_python() == 0) { HERE } ... }"   (the code as it is)
      false  after that block, under "if (_cffi_call_python_org != NULL)", before the mutex is released
-   The position is read from the source on every run (C28/Gen.v, gen_switch_in_success). *)
-Definition core (sw : bool) (s : state) (tc : nat * choice) : state :=
+   The position is read from the source on every run (C28/Gen.v, gen_switch_in_success).
+   [rb] = in _cffi_acquire_reentrant_mutex the CAS guard is released BEFORE pthread_mutex_lock
+     true   ... CAS lock 1 -> NULL; pthread_mutex_lock(...)                   (the code as it is)
+     false  ... pthread_mutex_lock(...); CAS lock 1 -> NULL: a thread that has to wait for the
+            mutex waits while holding the guard
+   (C28/Gen.v, gen_guard_released_before_lock). *)
+Definition core (sw rb : bool) (s : state) (tc : nat * choice) : state :=
   let (t, c) := tc in
   if negb (t <? nthr s) then s else
   match stacks s t with
@@ -153,10 +158,10 @@ Definition core (sw : bool) (s : state) (tc : nat * choice) : state :=
           | None => set_stack (set_lib s l (lcas L (Some t))) t ((l, PMTest) :: rest)
           | Some _ => s
           end
-      | PMTest => if ready L then go PCas2 else go PMInit
-      | PMInit => set_stack (set_lib s l (lready L)) t ((l, PCas2) :: rest)
-      | PCas2 => set_stack (set_lib s l (lcas L None)) t ((l, PLock) :: rest)
-      | PLock => if mutex_free s l t then go PChk else s
+      | PMTest => if ready L then go (if rb then PCas2 else PLock) else go PMInit
+      | PMInit => set_stack (set_lib s l (lready L)) t ((l, if rb then PCas2 else PLock) :: rest)
+      | PCas2 => set_stack (set_lib s l (lcas L None)) t ((l, if rb then PLock else PChk) :: rest)
+      | PLock => if mutex_free s l t then go (if rb then PChk else PCas2) else s
       | PChk => if called L then go PRel else go PMark
       | PMark => set_stack (set_lib s l (lcalled L t)) t ((l, PInitStart) :: rest)
       | PInitStart => set_stack (set_lib s l (lstart L)) t ((l, PInitRun) :: rest)
@@ -209,12 +214,12 @@ Definition keeps_gil (s : state) (t : nat) : bool :=
   | _ => false
   end.
 
-Definition step_gen (sw : bool) (s : state) (tc : nat * choice) : state :=
+Definition step_gen (sw rb : bool) (s : state) (tc : nat * choice) : state :=
   if gil_blocked s (fst tc) then s
-  else let s' := core sw s tc in
+  else let s' := core sw rb s tc in
        if keeps_gil s (fst tc) then set_gil s' (Some (fst tc)) else s'.
 
-Definition step := step_gen gen_switch_in_success.
+Definition step := step_gen gen_switch_in_success gen_guard_released_before_lock.
 
 Definition run (n : nat) (sched : list (nat * choice)) : state := fold_left step sched (init n).
 
